@@ -16,6 +16,12 @@ func vRunC18(c *vCase) {
 	if vChance(r, 0.3) {
 		size = 2 + r.Intn(4095)
 	}
+	big := vChance(r, 0.03)
+	if big {
+		// rings of several MiB (the production ring is larger still): single reads of more than a MiB, few operations
+		size = vPick(r, 2<<20, 3<<20, (4<<20)+17)
+		c.Cov("histories_on_rings_of_several_MiB", 1)
+	}
 	name := fmt.Sprintf("verif_%d_%d", os.Getpid(), c.Idx)
 	if vChance(r, 0.25) {
 		// an earlier ring under the same names, used and then abandoned without unlinking: the ring created now is a new, empty FIFO
@@ -52,6 +58,9 @@ func vRunC18(c *vCase) {
 	base := w.desc.writePointer
 	var wpos, rpos uint64 // bytes accepted / consumed since start
 	nops := 20 + r.Intn(400)
+	if big {
+		nops = 10 + r.Intn(30)
+	}
 	sz := func() int {
 		free := size - 1 - int(wpos-rpos)
 		held := int(wpos - rpos)
